@@ -36,7 +36,7 @@ theorem actCirc_H_r (l : List Nat) (hl : l.Nodup) (p : PRow) (h : ∀ q, q ∈ l
     simp [PRow.h, this]
 
 /-- `H^{⊗n}` maps `Z_i` to `X_i` -/
-theorem actCirc_H_Zq (n i : Nat) (hi : i < n) : EqOn n (actCirc ((List.range n).map Gate.H) (Zq i)) (Xq i) := by
+theorem actCirc_H_Zq (n i : Nat) (_hi : i < n) : EqOn n (actCirc ((List.range n).map Gate.H) (Zq i)) (Xq i) := by
   refine ⟨fun j hj => ?_, ?_, ?_⟩
   · obtain ⟨h1, h2, _⟩ := actCirc_H_bits (List.range n) List.nodup_range (Zq i) j
     rw [h1, h2]
